@@ -8,7 +8,8 @@ import time
 from concurrent.futures import ThreadPoolExecutor
 
 ROOT = os.path.dirname(os.path.dirname(os.path.abspath(__file__)))
-EVIDENCE_DIR = os.path.join(ROOT, "evidence")
+_SCRATCH = os.environ.get("REX_REPO", "/repo") != "/repo"   # experimenting on a scratch copy: keep the committed evidence untouched
+EVIDENCE_DIR = os.path.join(ROOT, "evidence_scratch" if _SCRATCH else "evidence")
 REPLAY_DIR = os.path.join(ROOT, "replays")
 KNOWN_FINDINGS = os.path.join(ROOT, "known_findings.json")
 NPROC = int(os.environ.get("VERIF_NPROC", "16"))
@@ -32,7 +33,7 @@ def run_jobs(jobs, nproc=None, timeout=600, desc=""):
     d = tempfile.mkdtemp(prefix="rexjobs_", dir=os.environ.get("TMPDIR", "/tmp"))
     env = dict(os.environ)
     env.setdefault("JAX_PLATFORMS", "cpu")
-    env["PYTHONPATH"] = "/repo:" + ROOT
+    env["PYTHONPATH"] = os.environ.get("REX_REPO", "/repo") + ":" + ROOT
     env.setdefault("PYTHONHASHSEED", "0")
 
     def one(i_job):
